@@ -352,3 +352,10 @@ def d19_7(ctx):
                   f"replies of that service are then classified as belonging to no service", reply=reply.hex())
     r = res[unknown]
     ctx.check(r is None, ckey(svc.key + ".from_reply", "unknown-reply"), fr, "a reply code of no service resolves to None", f"from_reply of a reply code outside the table yields {r!r}", reply=unknown.hex())
+
+
+# the (status, extended status) lookups of this property are the witness obligations of D13.8 (packets/util.get_extended_status
+# and the two per-class formatters): every sampled row of the extended-status table must be named by its text
+from .C13 import d13_8 as _d13_8  # noqa: E402
+
+rule(P, "D19.8", "T-WITNESS", floor=6)(_d13_8)
